@@ -54,17 +54,27 @@ Fixpoint dedup (l : list xst) : list xst :=
 
 Definition is_nil {A} (l : list A) : bool := match l with [] => true | _ => false end.
 
+(* the earliest instant at which some state of the frontier can move *)
+Definition min_tau (c : cfg) (front : list xst) : option Z :=
+  fold_left (fun acc x => let t := tau c (fst x) in
+                          match acc with None => Some t | Some m => Some (Z.min m t) end) front None.
+
+(* Only the states that can move at the earliest instant are expanded in a round, the others wait: two
+   schedules that reach the same state by a different number of steps at the same instant then meet in
+   the frontier and are merged by [dedup] (otherwise the frontier grows with every coincidence). *)
 Fixpoint explore (c : cfg) (H : Z) (fuel : nat) (front : list xst) : bool :=
   match fuel with
   | O => false
   | S f =>
-      match front with
-      | [] => false
-      | _ =>
-          if existsb (fun x => (H <=? tau c (fst x)) && is_nil (fst (snd x))) front then true
-          else explore c H f
-                 (dedup (flat_map (succs c H) (filter (fun x => tau c (fst x) <? H) front)))
-      end
+      if existsb (fun x => (H <=? tau c (fst x)) && is_nil (fst (snd x))) front then true
+      else
+        let live := filter (fun x => tau c (fst x) <? H) front in
+        match min_tau c live with
+        | None => false
+        | Some m =>
+            let '(cur, later) := partition (fun x => tau c (fst x) =? m) live in
+            explore c H f (dedup (flat_map (succs c H) cur ++ later))
+        end
   end.
 
 Definition admits (k : lcase) : bool :=
